@@ -86,7 +86,7 @@ func mathCosh(L *LState) int {
 }
 
 func mathDeg(L *LState) int {
-	L.Push(LNumber(float64(L.CheckNumber(1)) * 180 / math.Pi))
+	L.Push(LNumber(float64(L.CheckNumber(1)) * (180 / math.Pi)))
 	return 1
 }
 
